@@ -84,6 +84,10 @@ func CheckC06(o *Outcome) []Problem {
 				return false
 			}
 
+			if c.name == "QT" && DropToken(in.Token) {
+				return false // the transform asks for the output to be destroyed for this content (whatever the phase)
+			}
+
 			if o.Opts.QTIgnoreWhile && c.name == "QT" && in.TearingDown() && slices.Contains(in.Fins, "extin") {
 				return true
 			}
@@ -146,7 +150,8 @@ func CheckC06(o *Outcome) []Problem {
 						// (whether the output was taken away during the postponement is judged on the log below)
 					case out != nil && !held:
 						bad(sigFor("orphaned-output"), "%s %s: input %s is %s but output %s still exists and is not held by a foreign finalizer", stage, c.name, id, desc(in), desc(out))
-					case out == nil && in != nil && slices.Contains(in.Fins, c.name):
+					case out == nil && in != nil && in.TearingDown() && slices.Contains(in.Fins, c.name) &&
+						!(o.Opts.QTIgnoreWhile && c.name == "QT" && slices.Contains(in.Fins, "extin")): // (a teardown that is being ignored releases nothing)
 						bad(sigFor("finalizer-not-released"), "%s %s: input %s is %s: torn down, output gone, but the controller's finalizer is still there", stage, c.name, id, desc(in))
 					}
 				}
@@ -164,7 +169,7 @@ func CheckC06(o *Outcome) []Problem {
 					}
 
 					if cm.Op == "destroy" && cm.Key.Type == c.outType {
-						if in := shadow[key(res.TypeA, cm.Key.ID)]; in != nil && in.TearingDown() && slices.Contains(in.Fins, c.name) {
+						if in := shadow[key(res.TypeA, cm.Key.ID)]; in != nil && in.TearingDown() && slices.Contains(in.Fins, c.name) && !(c.name == "QT" && DropToken(in.Token)) {
 							bad("output-destroyed-while-finalizer-removal-postponed", "%s: output %s/%s destroyed at %d while input is %s and the removal function postpones", c.name, c.outType[:1], cm.Key.ID, cm.Seq, desc(in))
 						}
 					}
